@@ -43,6 +43,7 @@ type Prog struct {
 	Tags    string
 	NumPkgs int
 	eff     *Effects
+	nila    *NilAnalysis
 }
 
 // Load loads /repo's current working tree.
